@@ -116,6 +116,8 @@ type Interp struct {
 
 	curFrame  *frame
 	lockDepth int
+	goq       []pendingGo // goroutines started and not yet run (see runPendingGo)
+	inGo      int         // > 0 while a goroutine body runs
 	ptrTokens map[interface{}]uint64
 	pcTable   []pcEntry
 	pcIndex   map[pcEntry]int
@@ -313,6 +315,32 @@ func (in *Interp) prepareCall(fr *frame, call *ssa.CallCommon) (fn Value, args [
 		args = append(args, fr.get(a))
 	}
 	return
+}
+
+type pendingGo struct {
+	fn   Value
+	args []Value
+	site ssa.Instruction
+}
+
+// runPendingGo runs the goroutines started so far, each to completion. With two
+// or more pending, two schedules are explored (a choice of the path): in
+// spawning order and in reverse order. Goroutines they start are run as well.
+func (in *Interp) runPendingGo(fr *frame) {
+	for len(in.goq) > 0 {
+		q := in.goq
+		in.goq = nil
+		if len(q) > 1 && in.ps.choose(in, 2) == 1 {
+			for i, j := 0, len(q)-1; i < j; i, j = i+1, j-1 {
+				q[i], q[j] = q[j], q[i]
+			}
+		}
+		for _, g := range q {
+			in.inGo++
+			in.call(fr, g.site, g.fn, g.args)
+			in.inGo--
+		}
+	}
 }
 
 func (in *Interp) lookupMethod(t types.Type, m *types.Func) *ssa.Function {
@@ -718,12 +746,18 @@ func (in *Interp) visitInstr(fr *frame, instr ssa.Instruction) int {
 		fn, args := in.prepareCall(fr, &instr.Call)
 		fr.defers = append(fr.defers, &deferred{fn: fn, args: args, site: instr})
 	case *ssa.Go:
-		panic(in.abort("unsupported", "go statement in "+fr.fn.String()))
+		// Goroutine model (bounded): a goroutine runs to completion, without
+		// interleaving, when the spawning code next waits (WaitGroup.Wait, a receive
+		// that would block) or, at the latest, when the harness returns.
+		fn, args := in.prepareCall(fr, &instr.Call)
+		in.goq = append(in.goq, pendingGo{fn: fn, args: args, site: instr})
 	case *ssa.MakeChan:
 		fr.set(instr, &Chan{cap: int(in.concInt(fr.get(instr.Size).(*Term), true))})
 	case *ssa.Send:
 		ch := fr.get(instr.Chan).(*Chan)
-		if ch == nil || len(ch.buf) >= ch.cap {
+		// inside a goroutine body a send that would block is queued: the spawning
+		// code receives once the bodies have run
+		if ch == nil || (len(ch.buf) >= ch.cap && in.inGo == 0) {
 			panic(in.abort("unsupported", "blocking channel send"))
 		}
 		ch.buf = append(ch.buf, fr.get(instr.X))
